@@ -241,9 +241,42 @@ def r5(ctx, facts):
     r.instance("delegates-to-execution-core", len(rn) == 1, "fetch_one_page must delegate to run_request_no_side_effects (C06/C13 rules then apply per page)", b.span)
 
 
+def r6(ctx, facts):
+    r = ctx.rule("R6", "hand-written poll functions of the row stream never return Pending after consuming a wake-up", floor=3)
+    CX = "core::task::wake::Context"
+    for b in facts.bodies.mentioning('"Pending"'):
+        if b.crate != "scylla" or "{closure" in b.path or not b.span.file.endswith("client/pager.rs"):
+            continue
+        if not any(CX in (b.local_ty(i) or "") for i in range(1, b.argc + 1)):
+            continue
+        pend = [bb for bb in b.live_blocks for st in b.stmts(bb)
+                if st[0] == "A" and st[1] == [0, []] and st[2][0] == "agg" and st[2][1][0] == "adt" and st[2][1][1] == "core::task::poll::Poll" and st[2][1][2] == "Pending"]
+        inner = [c for bb, c in b.calls() if bb in b.live_blocks and (b.local_ty(c.dest[0]) or "").startswith("core::task::poll::Poll<")
+                 and any(a[0] in ("c", "m") and CX in (b.local_ty(a[1][0]) or "") for a in c.args)]
+        wakes = [c.bb for c in b.calls_to("core::task::wake::Waker::wake_by_ref", "core::task::wake::Waker::wake")]
+        df = df_of(b, facts)
+        for n, c in enumerate(inner):
+            sws = switch_on(b, df, ("disc", (c.dest[0], ())))
+            if not sws:
+                r.note("%s: result of %s is not matched directly" % (fn_short(b.path), fn_short(c.name or "?")))
+                continue
+            bad = []
+            for sw in sws:
+                edges, other = switch_edges(b, sw)
+                ready_tg = edges.get(0, other)
+                cut = set(wakes) | {x.bb for x in inner if x is not c}
+                if ready_tg in cut:
+                    continue
+                reach = b.reachable_from(ready_tg, removed_nodes=list(cut))
+                bad += [p for p in pend if p in reach]
+            r.instance("no-lost-wakeup:%s#%d" % (fn_short(b.path), n), not bad,
+                       "after %s returned Ready (its wake-up registration is consumed), %s can return Poll::Pending without waking the task or polling again: the consumer would sleep forever (e.g. on an empty page)"
+                       % (fn_short(c.name or "?"), fn_short(b.path)), c.span)
+
+
 def check(ctx):
     facts = ctx.facts("default")
-    for fn in (r1, r2, r3, r4, r5):
+    for fn in (r1, r2, r3, r4, r5, r6):
         try:
             fn(ctx, facts)
         except AnchorLost as ex:
